@@ -261,6 +261,10 @@ def run(ctx):
     endpoint_no_use_after_finish(ctx, prog, "R3.no-access-after-handover", "events_once::core::sync::Event::")
     from .c07 import endpoint_receiver_drop
     endpoint_receiver_drop(ctx, prog, "R4.release-discipline", "events_once::core::sync::Event::", "sync_receiver::ReceiverCore")
+    from .c07 import endpoint_receiver_poll
+    endpoint_receiver_poll(ctx, prog, "R4.release-discipline", "sync_receiver::ReceiverCore")
+    from .c07 import protected_reference_rule
+    protected_reference_rule(ctx, "R3.no-access-after-handover", "events_once::core::sync::Event", "events_once::core::sync::Event")
     from .c07 import endpoint_sender_drop
     endpoint_sender_drop(ctx, prog, "R4.release-discipline", "events_once::core::sync::Event::", "sync_sender::SenderCore")
     # every release_event impl: nothing touches the event (self) after the storage has been given back
